@@ -782,4 +782,563 @@ theorem inv_reachable {cfg0 : Config} {s : State} (h : Reachable cfg0 s) : Inv s
   obtain ⟨hist, op, orc, k, rfl⟩ := h
   exact inv_steps (inv_runOps (inv_init cfg0) hist) (stepsOk_take (plan_stepsOk (inv_runOps (inv_init cfg0) hist) orc op) k)
 
+/-! ### generic "every step satisfies P in the state it is applied to" -/
+
+def AllSteps (P : State → Step → Prop) (s : State) : List Step → Prop
+  | [] => True
+  | st :: r => P s st ∧ AllSteps P (applyStep s st) r
+
+theorem allSteps_append {P : State → Step → Prop} {s : State} {a b : List Step} :
+    AllSteps P s (a ++ b) ↔ AllSteps P s a ∧ AllSteps P (applySteps s a) b := by
+  induction a generalizing s with
+  | nil => simp [AllSteps, applySteps]
+  | cons x xs ih => simp only [List.cons_append, AllSteps, applySteps_cons, ih, and_assoc]
+
+theorem allSteps_split {P : State → Step → Prop} {s : State} {pre post : List Step} {st : Step}
+    (h : AllSteps P s (pre ++ st :: post)) : P (applySteps s pre) st :=
+  (allSteps_append.mp h).2.1
+
+theorem stepsOk_split {s : State} {pre post : List Step} {st : Step}
+    (h : StepsOk s (pre ++ st :: post)) : StepOk (applySteps s pre) st :=
+  (stepsOk_append.mp h).2.1
+
+theorem allSteps_of_forall {P : State → Step → Prop} {l : List Step} (h : ∀ st ∈ l, ∀ s, P s st) (s : State) :
+    AllSteps P s l := by
+  induction l generalizing s with
+  | nil => trivial
+  | cons x xs ih =>
+    exact ⟨h x (List.mem_cons_self ..) s, ih (fun st hst => h st (List.mem_cons_of_mem _ hst)) _⟩
+
+/-- steps that neither release a mount, delete a directory nor create a snapshot record -/
+def Step.isPlain : Step → Bool
+  | .fsUnmount _ _ => false
+  | .rmdir _ => false
+  | .txCreate _ => false
+  | _ => true
+
+/-- Side conditions about directories (`closing` = the call is `Close`):
+an Unmount of an id-named directory is issued only when no live snapshot owns it (or while closing);
+a directory is deleted only when no live snapshot owns it (or, while closing, when it belongs to a
+remote snapshot); a snapshot record is committed only when its directory exists. -/
+def Safe (closing : Bool) (s : State) : Step → Prop
+  | .fsUnmount (.id n) _ => closing = true ∨ ∀ a ∈ s.snaps, a.id ≠ n
+  | .rmdir d => liveDir s.snaps d = false ∨ (closing = true ∧ remoteDir s.snaps d = true)
+  | .txCreate sn => Dir.id sn.id ∈ s.dirs
+  | _ => True
+
+theorem safe_of_plain {c : Bool} {s : State} {st : Step} (h : st.isPlain = true) : Safe c s st := by
+  cases st <;> first | trivial | (simp [Step.isPlain] at h)
+
+theorem allSteps_plain {c : Bool} {l : List Step} (h : ∀ st ∈ l, st.isPlain = true) (s : State) :
+    AllSteps (Safe c) s l :=
+  allSteps_of_forall (fun st hst _ => safe_of_plain (h st hst)) s
+
+theorem cleanupDir_snaps (s : State) (orc : Oracle) (d : Dir) :
+    (applySteps s (cleanupDir orc d)).snaps = s.snaps := by
+  cases d <;> simp [applySteps, applyStep, cleanupDir]
+
+theorem cleanupDir_safe (c : Bool) (s : State) (orc : Oracle) (d : Dir)
+    (h : liveDir s.snaps d = false ∨ (c = true ∧ remoteDir s.snaps d = true)) :
+    AllSteps (Safe c) s (cleanupDir orc d) := by
+  unfold cleanupDir
+  refine ⟨?_, trivial, ?_, trivial, trivial⟩
+  · cases d with
+    | temp t => trivial
+    | id n =>
+      rcases h with h | ⟨hc, _⟩
+      · right
+        intro a ha e
+        simp only [liveDir, List.any_eq_false] at h
+        exact h a ha (by simp [e])
+      · exact Or.inl hc
+  · cases d <;> exact h
+
+theorem cleanupSteps_safe (c : Bool) (orc : Oracle) (ds : List Dir) :
+    ∀ (s : State), (∀ d ∈ ds, liveDir s.snaps d = false ∨ (c = true ∧ remoteDir s.snaps d = true)) →
+      AllSteps (Safe c) s (cleanupSteps orc ds) := by
+  induction ds with
+  | nil => intro s _; trivial
+  | cons d r ih =>
+    intro s h
+    unfold cleanupSteps
+    rw [List.flatMap_cons, allSteps_append]
+    refine ⟨cleanupDir_safe c s orc d (h d (List.mem_cons_self ..)), ?_⟩
+    apply ih
+    intro d' hd'
+    rw [cleanupDir_snaps]
+    exact h d' (List.mem_cons_of_mem _ hd')
+
+theorem mem_arrange {order set : List Dir} {d : Dir} : d ∈ arrange order set ↔ d ∈ set := by
+  unfold arrange
+  simp only [List.mem_append, List.mem_filter, List.contains_eq_mem, decide_eq_true_eq, Bool.not_eq_eq_eq_not,
+    Bool.not_true, decide_eq_false_iff_not]
+  constructor
+  · rintro (⟨_, h⟩ | ⟨h, _⟩) <;> exact h
+  · intro h
+    by_cases ho : d ∈ order
+    · exact Or.inl ⟨ho, h⟩
+    · exact Or.inr ⟨h, ho⟩
+
+theorem createPlan_safe {s : State} (h : Inv s) (orc : Oracle) (kind : Kind) (key parent : String) (labels : Labels) :
+    AllSteps (Safe false) s (createPlan s orc kind key parent labels).1 := by
+  unfold createPlan
+  simp only []
+  split
+  · exact ⟨trivial, trivial, cleanupDir_safe _ _ _ _ (Or.inl rfl)⟩
+  · split
+    · exact ⟨trivial, trivial, trivial, cleanupDir_safe _ _ _ _ (Or.inl rfl)⟩
+    · split
+      · refine ⟨trivial, trivial, trivial, ?_⟩
+        rw [allSteps_append]
+        refine ⟨cleanupDir_safe _ _ _ _ (Or.inl rfl), ?_⟩
+        apply cleanupDir_safe
+        left
+        rw [cleanupDir_snaps]
+        simp only [liveDir, List.any_eq_false]
+        intro a ha
+        have := (h.idBound a (by simpa [applyStep] using ha)).2
+        simp at this ⊢
+        omega
+      · refine ⟨trivial, trivial, trivial, trivial, trivial, ?_, trivial, trivial⟩
+        simp [Safe, applyStep]
+
+theorem mountsPlan_plain (s : State) (orc : Oracle) (sn : Snap) (pids : List Nat) (ck : String) :
+    ∀ st ∈ (mountsPlan s orc sn pids ck).1, st.isPlain = true := by
+  unfold mountsPlan
+  split
+  · simp
+  · split
+    · simp
+    · simp only []
+      split <;> (intro st hst; simp only [List.mem_map] at hst; obtain ⟨c, _, rfl⟩ := hst; rfl)
+
+theorem restoreSteps_plain (allow : Bool) (orc : Oracle) (tasks : List Snap) :
+    ∀ st ∈ (restoreSteps allow orc tasks).1, st.isPlain = true := by
+  induction tasks with
+  | nil => simp [restoreSteps]
+  | cons sn rest ih =>
+    unfold restoreSteps
+    split
+    · intro st hst
+      simp only [List.mem_cons] at hst
+      rcases hst with rfl | rfl | rfl | rfl | hst <;> first | rfl | exact ih st hst
+    · split
+      · intro st hst
+        simp only [List.mem_cons] at hst
+        rcases hst with rfl | rfl | rfl | hst <;> first | rfl | exact ih st hst
+      · simp [Step.isPlain]
+
+theorem restartPlan_plain (s : State) (orc : Oracle) (cfg : Config) :
+    ∀ st ∈ (restartPlan s orc cfg).1, st.isPlain = true := by
+  unfold restartPlan
+  split
+  · simp [Step.isPlain]
+  · split
+    · intro st hst
+      simp only [List.mem_cons, List.mem_append, List.not_mem_nil, or_false] at hst
+      rcases hst with rfl | hst | rfl
+      · rfl
+      · exact restoreSteps_plain _ _ _ st hst
+      · rfl
+    · intro st hst
+      simp only [List.mem_cons] at hst
+      rcases hst with rfl | hst
+      · rfl
+      · exact restoreSteps_plain _ _ _ st hst
+
+theorem closePlan_safe (s : State) (orc : Oracle) (order : List Dir) :
+    AllSteps (Safe true) s (closePlan s orc order).1 := by
+  unfold closePlan
+  rw [allSteps_append]
+  refine ⟨?_, trivial, trivial, trivial⟩
+  apply cleanupSteps_safe
+  intro d hd
+  rw [mem_arrange] at hd
+  exact Or.inr ⟨rfl, (List.mem_filter.mp hd).2⟩
+
+/-- Unless the call is `Close`, every plan satisfies the directory side conditions with `closing = false`. -/
+theorem plan_safe {s : State} (h : Inv s) (orc : Oracle) (op : Op) (hnc : ∀ order, op ≠ .close order) :
+    AllSteps (Safe false) s (plan s orc op).1 := by
+  cases op with
+  | close order => exact absurd rfl (hnc order)
+  | restart cfg => exact allSteps_plain (restartPlan_plain s orc cfg) _
+  | prepare key parent labels =>
+    simp only [plan]; split
+    · trivial
+    · have hc := createPlan_safe h orc .active key parent labels
+      unfold preparePlan
+      split
+      · rename_i st1 e heq; rw [heq] at hc; exact hc
+      · rename_i st1 sn pids heq
+        rw [heq] at hc
+        simp only []
+        split
+        · rw [allSteps_append]
+          exact ⟨hc, allSteps_plain (mountsPlan_plain _ _ _ _ _) _⟩
+        · split
+          · split
+            · rw [allSteps_append]
+              exact ⟨hc, allSteps_plain (by simp [Step.isPlain]) _⟩
+            · split
+              · rw [allSteps_append, allSteps_append]
+                exact ⟨⟨hc, allSteps_plain (by simp [Step.isPlain]) _⟩, allSteps_plain (by simp [Step.isPlain]) _⟩
+              · rw [allSteps_append, allSteps_append]
+                exact ⟨⟨hc, allSteps_plain (by simp [Step.isPlain]) _⟩, allSteps_plain (by simp [Step.isPlain]) _⟩
+          · rw [allSteps_append]
+            exact ⟨hc, trivial, allSteps_plain (mountsPlan_plain _ _ _ _ _) _⟩
+  | view key parent labels =>
+    simp only [plan]; split
+    · trivial
+    · have hc := createPlan_safe h orc .view key parent labels
+      unfold viewPlan
+      split
+      · rename_i st1 e heq; rw [heq] at hc; exact hc
+      · rename_i st1 sn pids heq
+        rw [heq] at hc
+        rw [allSteps_append]
+        exact ⟨hc, allSteps_plain (mountsPlan_plain _ _ _ _ _) _⟩
+  | commit name key labels =>
+    simp only [plan]; split
+    · trivial
+    · apply allSteps_plain
+      unfold commitPlan
+      split
+      · simp
+      · split
+        · simp
+        · split
+          · simp
+          · split
+            · simp
+            · split
+              · simp
+              · simp [Step.isPlain]
+  | mounts key =>
+    simp only [plan]; split
+    · trivial
+    · apply allSteps_plain
+      unfold mountsOpPlan
+      split
+      · simp
+      · split
+        · simp
+        · split
+          · simp
+          · exact mountsPlan_plain _ _ _ _ _
+  | remove key order =>
+    simp only [plan]; split
+    · trivial
+    · unfold removePlan
+      split
+      · trivial
+      · split
+        · trivial
+        · split
+          · exact ⟨trivial, trivial⟩
+          · refine ⟨trivial, trivial, ?_⟩
+            apply cleanupSteps_safe
+            intro d hd
+            rw [mem_arrange] at hd
+            have := (List.mem_filter.mp hd).2
+            left
+            simpa [applyStep] using this
+  | cleanup order =>
+    simp only [plan]; split
+    · trivial
+    · unfold cleanupPlan
+      apply cleanupSteps_safe
+      intro d hd
+      rw [mem_arrange] at hd
+      have := (List.mem_filter.mp hd).2
+      left
+      simpa using this
+  | walk =>
+    simp only [plan]; split
+    · trivial
+    · split <;> trivial
+  | stat key =>
+    simp only [plan]; split
+    · trivial
+    · split <;> trivial
+  | update key lk lv =>
+    simp only [plan]; split
+    · trivial
+    · unfold updatePlan
+      split
+      · trivial
+      · exact ⟨trivial, trivial⟩
+
+/-! ### parent chains and mount lists -/
+
+/-- `ch` is the list of snapshots met by following parent links from key `k` (nearest first). -/
+inductive IsChain (snaps : List Snap) : String → List Snap → Prop
+  | nil : IsChain snaps "" []
+  | cons {k : String} {p : Snap} {rest : List Snap} :
+      k ≠ "" → findKey snaps k = some p → IsChain snaps p.parent rest → IsChain snaps k (p :: rest)
+
+theorem chain_isChain {snaps : List Snap} : ∀ (fuel : Nat) (k : String) (ch : List Snap),
+    chain snaps fuel k = some ch → IsChain snaps k ch := by
+  intro fuel
+  induction fuel with
+  | zero => intro k ch h; simp [chain] at h
+  | succ n ih =>
+    intro k ch h
+    unfold chain at h
+    split at h
+    · rename_i hk; cases h; subst hk; exact IsChain.nil
+    · rename_i hk
+      split at h
+      · cases h
+      · rename_i p hf
+        cases hc : chain snaps n p.parent with
+        | none => simp [hc] at h
+        | some r =>
+          simp [hc] at h
+          subst h
+          exact IsChain.cons hk hf (ih _ _ hc)
+
+theorem chain_total {s : State} (h : Inv s) : ∀ (fuel : Nat) (k : String),
+    ((k = "" ∧ 1 ≤ fuel) ∨ ∃ p, findKey s.snaps k = some p ∧ p.id < fuel) → ∃ ch, chain s.snaps fuel k = some ch := by
+  intro fuel
+  induction fuel with
+  | zero =>
+    intro k hk
+    rcases hk with ⟨_, h1⟩ | ⟨p, _, h1⟩ <;> omega
+  | succ n ih =>
+    intro k hk
+    unfold chain
+    split
+    · exact ⟨[], rfl⟩
+    · rename_i hne
+      rcases hk with ⟨e, _⟩ | ⟨p, hf, hlt⟩
+      · exact absurd e hne
+      · rw [hf]
+        have hp := findKey_some hf
+        have hb := h.idBound p hp.1
+        have : ∃ ch, chain s.snaps n p.parent = some ch := by
+          apply ih
+          by_cases hpp : p.parent = ""
+          · left; exact ⟨hpp, by omega⟩
+          · right
+            obtain ⟨q, hq1, hq2, _, hq4⟩ := h.parentOk p hp.1 hpp
+            refine ⟨q, ?_, by omega⟩
+            rw [← hq2]; exact h.findKey_of_mem hq1
+        obtain ⟨ch, hch⟩ := this
+        exact ⟨p :: ch, by simp [hch]⟩
+
+theorem chainOf_total {s : State} (h : Inv s) (k : String) (hk : k = "" ∨ hasKey s.snaps k = true) :
+    ∃ ch, chainOf s k = some ch ∧ IsChain s.snaps k ch := by
+  have : ∃ ch, chain s.snaps (s.seq + 1) k = some ch := by
+    apply chain_total h
+    rcases hk with e | hk
+    · left; exact ⟨e, by omega⟩
+    · right
+      obtain ⟨p, hf⟩ := hasKey_true.mp hk
+      have := (h.idBound p (findKey_some hf).1).2
+      exact ⟨p, hf, by omega⟩
+  obtain ⟨ch, hch⟩ := this
+  exact ⟨ch, hch, chain_isChain _ _ _ hch⟩
+
+theorem mountsPlan_result {s : State} {orc : Oracle} {sn : Snap} {pids : List Nat} {ck : String} {m : MountSpec}
+    (h : (mountsPlan s orc sn pids ck).2 = .mounts m) :
+    m = mountSpec sn pids ∧
+    (ck = "" ∨ ∃ ch, chainOf s ck = some ch ∧ ∀ c ∈ ch, isRemote c.labels = true → orc.checkOk c.id = true) := by
+  unfold mountsPlan at h
+  split at h
+  · rename_i hck
+    simp only [Res.mounts.injEq] at h
+    exact ⟨h.symm, Or.inl hck⟩
+  · split at h
+    · cases h
+    · rename_i ch hch
+      simp only [] at h
+      split at h
+      · rename_i hall
+        simp only [Res.mounts.injEq] at h
+        refine ⟨h.symm, Or.inr ⟨ch, hch, ?_⟩⟩
+        intro c hc hr
+        simp only [List.all_eq_true] at hall
+        exact hall c (by unfold remoteOf; exact List.mem_filter.mpr ⟨hc, hr⟩)
+      · cases h
+
+theorem mountSpec_overlay {sn : Snap} {pids : List Nat} {up : Option Nat} {lower : List Nat}
+    (h : mountSpec sn pids = .overlay up lower) : lower = pids ∧ pids ≠ [] := by
+  unfold mountSpec at h
+  split at h
+  · cases h
+  · split at h
+    · simp only [MountSpec.overlay.injEq] at h
+      exact ⟨h.2.symm, by simp⟩
+    · split at h
+      · cases h
+      · simp only [MountSpec.overlay.injEq] at h
+        exact ⟨h.2.symm, by simp⟩
+
+theorem preparePlan_mounts {s : State} {orc : Oracle} {key parent : String} {labels : Labels} {m : MountSpec}
+    (h : (preparePlan s orc key parent labels).2 = .mounts m) :
+    ∃ st1 sn pids, createPlan s orc .active key parent labels = (st1, .ok (sn, pids)) ∧
+      (mountsPlan (applySteps s st1) orc sn pids parent).2 = .mounts m ∧
+      applySteps s (preparePlan s orc key parent labels).1 = applySteps s st1 ∧
+      (lget labels targetLabel = none ∨ orc.mountOk sn.id = false) := by
+  unfold preparePlan at h ⊢
+  split at h
+  · cases h
+  · rename_i st1 sn pids heq
+    rw [heq]
+    simp only [] at h ⊢
+    refine ⟨st1, sn, pids, rfl, ?_⟩
+    split at h
+    · rename_i hl
+      simp only [hl]
+      refine ⟨h, ?_, Or.inl trivial⟩
+      rw [applySteps_append, mountsPlan_state]
+    · rename_i target hl
+      simp only [hl]
+      split at h
+      · split at h
+        · cases h
+        · split at h <;> cases h
+      · rename_i hmo
+        simp only [hmo]
+        refine ⟨h, ?_, Or.inr (by simp)⟩
+        simp only [Bool.false_eq_true, if_false]
+        rw [applySteps_append, applySteps_cons]
+        show applySteps (applySteps s st1) _ = _
+        exact mountsPlan_state _ _ _ _ _
+
+theorem viewPlan_mounts {s : State} {orc : Oracle} {key parent : String} {labels : Labels} {m : MountSpec}
+    (h : (viewPlan s orc key parent labels).2 = .mounts m) :
+    ∃ st1 sn pids, createPlan s orc .view key parent labels = (st1, .ok (sn, pids)) ∧
+      (mountsPlan (applySteps s st1) orc sn pids parent).2 = .mounts m ∧
+      applySteps s (viewPlan s orc key parent labels).1 = applySteps s st1 := by
+  unfold viewPlan at h ⊢
+  split at h
+  · cases h
+  · rename_i st1 sn pids heq
+    rw [heq]
+    simp only [] at h ⊢
+    exact ⟨st1, sn, pids, rfl, h, by rw [applySteps_append, mountsPlan_state]⟩
+
+theorem chainOf_empty (s : State) : chainOf s "" = some [] := by
+  simp [chainOf, chain]
+
+theorem mountsPlan_result' {s : State} {orc : Oracle} {sn : Snap} {pids : List Nat} {ck : String} {m : MountSpec}
+    (h : (mountsPlan s orc sn pids ck).2 = .mounts m) :
+    m = mountSpec sn pids ∧
+    ∃ ch, chainOf s ck = some ch ∧ ∀ c ∈ ch, isRemote c.labels = true → orc.checkOk c.id = true := by
+  obtain ⟨h1, h2⟩ := mountsPlan_result h
+  refine ⟨h1, ?_⟩
+  rcases h2 with rfl | h2
+  · exact ⟨[], chainOf_empty s, fun c hc => nomatch hc⟩
+  · exact h2
+
+/-- which calls can return a mount list -/
+theorem plan_mounts_cases {s : State} {orc : Oracle} {op : Op} {m : MountSpec}
+    (h : (plan s orc op).2 = .mounts m) :
+    (∃ k p l, op = .prepare k p l ∧ plan s orc op = preparePlan s orc k p l) ∨
+    (∃ k p l, op = .view k p l ∧ plan s orc op = viewPlan s orc k p l) ∨
+    (∃ k, op = .mounts k ∧ plan s orc op = mountsOpPlan s orc k) := by
+  cases op with
+  | restart cfg =>
+    simp only [plan, restartPlan] at h
+    split at h
+    · cases h
+    · split at h <;> cases h
+  | prepare k p l =>
+    simp only [plan] at h ⊢
+    split at h
+    · cases h
+    · rename_i hc; simp only [hc]; exact Or.inl ⟨k, p, l, rfl, rfl⟩
+  | view k p l =>
+    simp only [plan] at h ⊢
+    split at h
+    · cases h
+    · rename_i hc; simp only [hc]; exact Or.inr (Or.inl ⟨k, p, l, rfl, rfl⟩)
+  | mounts k =>
+    simp only [plan] at h ⊢
+    split at h
+    · cases h
+    · rename_i hc; simp [hc]
+  | commit name key labels =>
+    simp only [plan, commitPlan] at h
+    split at h
+    · cases h
+    · split at h
+      · cases h
+      · split at h
+        · cases h
+        · split at h
+          · cases h
+          · split at h
+            · cases h
+            · split at h <;> cases h
+  | remove key order =>
+    simp only [plan, removePlan] at h
+    split at h
+    · cases h
+    · split at h
+      · cases h
+      · split at h
+        · cases h
+        · split at h <;> cases h
+  | cleanup order =>
+    simp only [plan, cleanupPlan] at h
+    split at h <;> cases h
+  | walk =>
+    simp only [plan] at h
+    split at h
+    · cases h
+    · split at h <;> cases h
+  | stat key =>
+    simp only [plan] at h
+    split at h
+    · cases h
+    · split at h <;> cases h
+  | update key lk lv =>
+    simp only [plan, updatePlan] at h
+    split at h
+    · cases h
+    · split at h <;> cases h
+  | close order =>
+    simp only [plan, closePlan] at h
+    split at h <;> cases h
+
+theorem mountsOp_spec {s : State} {orc : Oracle} {key : String} {m : MountSpec}
+    (h : (mountsOpPlan s orc key).2 = .mounts m) :
+    applySteps s (mountsOpPlan s orc key).1 = s ∧
+    ∃ sn ps, findKey s.snaps key = some sn ∧ chainOf s sn.parent = some ps ∧ m = mountSpec sn (ps.map (·.id)) ∧
+      ∃ ch, chainOf s key = some ch ∧ ∀ c ∈ ch, isRemote c.labels = true → orc.checkOk c.id = true := by
+  unfold mountsOpPlan at h ⊢
+  split at h
+  · cases h
+  · rename_i sn hf
+    simp only [hf]
+    split at h
+    · cases h
+    · rename_i hk
+      simp only [hk]
+      split at h
+      · cases h
+      · rename_i ps hps
+        obtain ⟨h1, h2⟩ := mountsPlan_result' h
+        exact ⟨mountsPlan_state _ _ _ _ _, sn, ps, rfl, hps, h1, h2⟩
+
+theorem create_mounts_spec {s : State} (hinv : Inv s) {orc : Oracle} {kind : Kind} {key parent : String}
+    {labels : Labels} {st1 : List Step} {sn : Snap} {pids : List Nat} {m : MountSpec}
+    (hc : createPlan s orc kind key parent labels = (st1, .ok (sn, pids)))
+    (hm : (mountsPlan (applySteps s st1) orc sn pids parent).2 = .mounts m) :
+    findKey (applySteps s st1).snaps key = some sn ∧ sn.parent = parent ∧ sn.kind = kind ∧ sn.labels = labels ∧
+    sn.id = s.seq + 1 ∧
+    ∃ ps, chainOf s parent = some ps ∧ m = mountSpec sn (ps.map (·.id)) ∧
+      ∃ ch, chainOf (applySteps s st1) parent = some ch ∧ ∀ c ∈ ch, isRemote c.labels = true → orc.checkOk c.id = true := by
+  have hok := createPlan_stepsOk hinv orc kind key parent labels
+  rw [hc] at hok
+  have hinv1 := inv_steps hinv hok
+  obtain ⟨ps, hchk, hp, _, _, hsn, hst⟩ := createPlan_ok hc
+  have hmem : sn ∈ (applySteps s st1).snaps := by rw [hst]; exact mem_insertSnap.mpr (Or.inl rfl)
+  have hk : sn.key = key := by rw [hsn]
+  obtain ⟨h1, h2⟩ := mountsPlan_result' hm
+  refine ⟨by rw [← hk]; exact hinv1.findKey_of_mem hmem, by rw [hsn], by rw [hsn], by rw [hsn], by rw [hsn], ps,
+    (createChecks_ok hchk).2.2.2, by rw [h1, hp], h2⟩
+
 end SV.Snap
